@@ -675,13 +675,27 @@ class Prop:
                          'bgp_parse_no_panic_partial', 'bgp_parse_consumes_partial',
                          'bgp_complete_frame_decided_partial', 'bgp_need_only_if_incomplete_partial',
                          'bgp_fragmentation_invariant_partial']
-    correspondence_name = ('Model/Bfd.v bfd_decode vs packet/src/bfd.rs Message::decode '
+    correspondence_name = ('Model/Bfd.v bfd_decode vs packet/src/bfd.rs Message::decode; Model/Rtr.v rtr_decode vs packet/src/rpki.rs '
+                           'RtrCodec::decode; Model/Wire*.v try_parse vs packet/src/bgp.rs PeerCodec::try_parse/parse_message (with vpn.rs, '
+                           'labeled.rs, mpls.rs, rd.rs); each driven chunk by chunk as run_select / FramedRead do '
                            '(harness/hx-packet, debug and release builds)')
-    rule = ('a case is one byte string (BFD) ...; non-trivial when the decoder gets past the length checks; '
-            'distinct = distinct (decoder, outcome class, error kind)')
+    rule = ('a case is one BFD datagram, or a byte stream cut into chunks for the RTR or the BGP decoder (BGP: with a session codec from '
+            'family set x add-path x AS width x extended message x extended next hop); built from valid messages by structural mutation '
+            '(every length field to 0/1/exact+-1/max, 16-bit sums that overflow, truncation at every offset, duplicated and reordered '
+            'attributes, label stacks of 1-40 labels, attribute-length / prefix-length / next-hop-length sweeps) plus a malformed stream and '
+            'arbitrary fragmentation; a case is non-trivial when a decoder returns a message or a protocol error (not merely "need more"); '
+            'distinct = distinct (decoder, AS width, sequence of message kinds with their attribute codes and error attributes, error codes); '
+            'kind "fuzz" cases (families whose NLRI decoders are not modelled) are run on the implementation only and judged by the Spec oracle')
     exhaustive = {'quick': False, 'thorough': False}
-    trusted_base = []
-    assumptions = ['bytes are 0..255 (the harness cannot supply anything else)']
+    trusted_base = ['the NLRI decoders of MUP, flowspec, flowspec-VPN, BGP-LS, SR-policy, EVPN and RTC are a Section variable with the contract '
+                    '"a decoded NLRI takes at least one byte, or the decoder fails" (it cannot panic by type); the contract is exercised by fuzzing '
+                    'the real decoders through the harness (random and seeded from the repository\'s own wire test vectors), not proved',
+                    'prefix_sid.rs and tunnel_encap.rs are not reached by try_parse (the receive path keeps those attributes as bytes) and are not covered',
+                    'the marker (first 16 octets of the BGP header) is not checked by the code, the model or the property',
+                    'String::from_utf8 in the FQDN capability is modelled by the Unicode well-formedness table (Model/Wire.v utf8_valid_fuel)']
+    assumptions = ['bytes are 0..255 (the harness cannot supply anything else)',
+                   'the receive loop is the one of PeerSession::run_select / tokio_util FramedRead: append what was read, call the decoder until it '
+                   'answers "need more" or fails (Model/Stream.v)']
 
     # ---- rendering
     def case_to_val(self, c):
